@@ -49,7 +49,7 @@ def w_eval(case, opts):
     """Run one source through Context.eval; compact record."""
     from vf import engine
     _limit_as()
-    o = {"tl": opts.get("tl", 40000), "ml": opts.get("ml", 30_000_000), "max_steps": opts.get("max_steps", 120000), "log": False}
+    o = {"tl": opts.get("tl", 40000), "ml": opts.get("ml", 30_000_000), "max_steps": opts.get("max_steps", 120000), "log": case.get("fam") == "generated-history"}
     rec = engine.run_js(case["src"], o, ctx=engine.new_context(o["tl"], o["ml"], quiet=False))     # the real console.log runs too
     out = {"o": rec["out"], "steps": rec.get("vm_steps", 0)}
     err = rec.get("err")
@@ -536,6 +536,22 @@ def main(ctx):
             add("corpus", [name.split(":")[0]], p, base=name)
         for name, src in scale_cases():
             add("scale", [name], src)
+        # well-formed programs with HISTORY (sequences of operations on shared state) from the generators of the other properties'
+        # checks: object-model histories, key-table rebuilds, array / typed-array view histories, hoisting and closure programs.
+        # Here only the boundary is judged: a value or a JSError, whatever the program does.
+        from vf import progen as _pg
+        from checks import C08 as _c08, C15 as _c15, C17 as _c17
+        n_hist = 250 if quick else 6000
+        gens = [("object-history", lambda r: _c08.history(r, r.randint(6, 16))), ("key-order", _c15.key_order_program), ("array-history", _c17.history_prog), ("view-history", _c17.view_history),
+                ("hoisting", _pg.hoisting_program), ("closure-heavy", _pg.closure_heavy), ("random-program", _pg.random_program)]
+        for gname, gen in gens:
+            for i in range(n_hist):
+                r = fixed if i % 2 == 0 else rng
+                try:
+                    src = gen(r)
+                except Exception:   # noqa  (a generator that needs more context than a bare rng: skip)
+                    break
+                add("generated-history", [gname], src if isinstance(src, str) else src[0])
         seen = set()
         fcases = [c for c in fcases if not (c["id"] in seen or seen.add(c["id"]))]
         cases = fcases + acases
